@@ -134,17 +134,22 @@ type sectionsState struct {
 	Bound         string
 }
 
-func (m SliceDotsMatcher) state(i, idx int, d data.Data) sectionsState {
+// It reports false if the state cannot be identified (a metavariable is bound
+// to something that is not a node).
+func (m SliceDotsMatcher) state(i, idx int, d data.Data) (sectionsState, bool) {
 	s := sectionsState{Section: i, Item: idx}
 	for _, name := range m.TailVars[i] {
 		var md metavarData
-		if data.Lookup(d, metavarKey(name), &md) {
-			s.Bound += fmt.Sprintf("%v:%v-%v;", name, md.Pos, md.End)
-		} else {
+		switch {
+		case !data.Lookup(d, metavarKey(name), &md):
 			s.Bound += name + ":;"
+		case md.Node == 0:
+			return s, false
+		default:
+			s.Bound += fmt.Sprintf("%v:%x;", name, md.Node)
 		}
 	}
-	return s
+	return s, true
 }
 
 // matchSections matches Sections[i:] against got[idx:].
@@ -162,8 +167,8 @@ func (m SliceDotsMatcher) matchSections(i int, got []reflect.Value, d data.Data,
 		return d, idx == len(got)
 	}
 
-	state := m.state(i, idx, d)
-	if _, ok := failed[state]; ok {
+	state, memo := m.state(i, idx, d)
+	if _, ok := failed[state]; memo && ok {
 		return d, false
 	}
 
@@ -187,7 +192,9 @@ func (m SliceDotsMatcher) matchSections(i int, got []reflect.Value, d data.Data,
 		}
 	}
 
-	failed[state] = struct{}{}
+	if memo {
+		failed[state] = struct{}{}
+	}
 	return d, false
 }
 
